@@ -38,6 +38,22 @@ type op struct {
 // one message commute: each machine only updates its own bindings and emits
 // messages addressed to nobody.
 func specDoc(name string) map[string]interface{} {
+	if name[0] == 'g' {
+		// a spec that relies on a spec-level option: every second message makes its action
+		// throw, which actionErrorBranches routes to a node that recovers (without the option
+		// the machine would end up at the error node)
+		doc := `{"name":"` + name + `","actionErrorBranches":true,"nodes":{
+ "start":{"branching":{"type":"message","branches":[{"pattern":{"uid":"?u"},"target":"work"}]}},
+ "work":{"action":{"interpreter":"ecmascript","source":"var bs=_.bindings; var u=bs['?u']; delete bs['?u']; bs.n=(bs.n||0)+1; if ((bs.n + (bs.recovered||0)) % 2 === 0) { throw new Error('even'); } bs.last=u; return bs;"},
+   "branching":{"branches":[{"pattern":{"actionError":"?e"},"target":"recover"},{"target":"start"}]}},
+ "recover":{"action":{"interpreter":"ecmascript","source":"var bs=_.bindings; delete bs.actionError; delete bs.error; delete bs['?e']; delete bs['?u']; bs.recovered=(bs.recovered||0)+1; _.out({to:'nobody',from:'` + name + `',recovered:bs.recovered}); return bs;"},
+   "branching":{"branches":[{"target":"start"}]}}}}`
+		var d map[string]interface{}
+		if err := json.Unmarshal([]byte(doc), &d); err != nil {
+			panic(err)
+		}
+		return d
+	}
 	var a *ref.ASpec
 	if name[0] == 'c' {
 		// counter: counts every message it sees, remembers the last uid
@@ -247,8 +263,11 @@ func genHistory(r *rand.Rand, idx int) []op {
 	uidN := 0
 	newSpec := func() string {
 		specN++
-		if r.Intn(2) == 0 {
+		switch r.Intn(5) {
+		case 0, 1:
 			return fmt.Sprintf("counter-%d-%d", idx, specN)
+		case 2:
+			return fmt.Sprintf("guarded-%d-%d", idx, specN)
 		}
 		return fmt.Sprintf("recorder-%d-%d", idx, specN)
 	}
